@@ -1015,3 +1015,73 @@ func ruleBigIndex(c *core.Ctx) {
 		})
 	}
 }
+
+// P4b: table/switch agreement in the expression parser. combineOperands is called for every
+// token whose operatorInfo entry has IsBinary: true; its switches end in `default: panic`, and
+// the token types are variables (lexer symbols), so constant exhaustiveness cannot see them.
+func ruleBinaryOperatorTokens(c *core.Ctx) {
+	const rule = "P4b"
+	c.Rule(rule, "every token type that operatorInfo marks IsBinary has a case in combineOperands (whose switches end in a panic)", 7)
+	p := c.Pkg("pkg/dsl")
+	_, d, _ := c.Func("pkg/dsl", "combineOperands")
+	if p == nil || d == nil {
+		c.Undecided(rule, "anchor/combineOperands", 0, "not found")
+		return
+	}
+	info := p.TypesInfo
+	var table *ast.CompositeLit
+	for _, f := range p.Syntax {
+		ast.Inspect(f, func(n ast.Node) bool {
+			if vs, ok := n.(*ast.ValueSpec); ok {
+				for i, nm := range vs.Names {
+					if nm.Name == "operatorInfo" && i < len(vs.Values) {
+						table, _ = vs.Values[i].(*ast.CompositeLit)
+					}
+				}
+			}
+			return true
+		})
+	}
+	if table == nil {
+		c.Undecided(rule, "anchor/operatorInfo", 0, "operatorInfo literal not found")
+		return
+	}
+	handled := map[types.Object]bool{}
+	ast.Inspect(d.Body, func(n ast.Node) bool {
+		if cc, ok := n.(*ast.CaseClause); ok {
+			for _, e := range cc.List {
+				if id, ok := ast.Unparen(e).(*ast.Ident); ok {
+					handled[info.Uses[id]] = true
+				}
+			}
+		}
+		return true
+	})
+	for _, el := range table.Elts {
+		kv, ok := el.(*ast.KeyValueExpr)
+		if !ok {
+			continue
+		}
+		id, ok := kv.Key.(*ast.Ident)
+		if !ok {
+			c.Undecided(rule, "operatorInfo/key", kv.Pos(), "key is not an identifier")
+			continue
+		}
+		binary := false
+		if v, ok := kv.Value.(*ast.CompositeLit); ok {
+			for _, fe := range v.Elts {
+				if fkv, ok := fe.(*ast.KeyValueExpr); ok && types.ExprString(fkv.Key) == "IsBinary" {
+					if tv, ok := info.Types[fkv.Value]; ok && tv.Value != nil && tv.Value.ExactString() == "true" {
+						binary = true
+					}
+				}
+			}
+		}
+		if !binary {
+			c.OK(rule, "operatorInfo/"+id.Name, kv.Pos(), "not a binary operator: handled by parseCall/parseSubscript")
+			continue
+		}
+		c.Check(handled[info.Uses[id]], rule, "operatorInfo/"+id.Name, kv.Pos(), "has a case in combineOperands",
+			fmt.Sprintf("%s is a binary operator of the grammar but combineOperands has no case for it: an expression using it makes yardl panic (unexpected token type)", id.Name))
+	}
+}
